@@ -27,6 +27,7 @@ func makeInts(opts ...func(*option[int])) Column {
 					data[offset] = r.SwapInt(opts.Merge(data[offset], r.Int()))
 				case commit.Delete:
 					fill.Remove(offset)
+					data[offset] = 0 // The next row at this offset must not merge into this value
 				}
 			}
 		}, opts,
@@ -76,6 +77,7 @@ func makeInt16s(opts ...func(*option[int16])) Column {
 					data[offset] = r.SwapInt16(opts.Merge(data[offset], r.Int16()))
 				case commit.Delete:
 					fill.Remove(offset)
+					data[offset] = 0 // The next row at this offset must not merge into this value
 				}
 			}
 		}, opts,
@@ -125,6 +127,7 @@ func makeInt32s(opts ...func(*option[int32])) Column {
 					data[offset] = r.SwapInt32(opts.Merge(data[offset], r.Int32()))
 				case commit.Delete:
 					fill.Remove(offset)
+					data[offset] = 0 // The next row at this offset must not merge into this value
 				}
 			}
 		}, opts,
@@ -174,6 +177,7 @@ func makeInt64s(opts ...func(*option[int64])) Column {
 					data[offset] = r.SwapInt64(opts.Merge(data[offset], r.Int64()))
 				case commit.Delete:
 					fill.Remove(offset)
+					data[offset] = 0 // The next row at this offset must not merge into this value
 				}
 			}
 		}, opts,
@@ -223,6 +227,7 @@ func makeUints(opts ...func(*option[uint])) Column {
 					data[offset] = r.SwapUint(opts.Merge(data[offset], r.Uint()))
 				case commit.Delete:
 					fill.Remove(offset)
+					data[offset] = 0 // The next row at this offset must not merge into this value
 				}
 			}
 		}, opts,
@@ -272,6 +277,7 @@ func makeUint16s(opts ...func(*option[uint16])) Column {
 					data[offset] = r.SwapUint16(opts.Merge(data[offset], r.Uint16()))
 				case commit.Delete:
 					fill.Remove(offset)
+					data[offset] = 0 // The next row at this offset must not merge into this value
 				}
 			}
 		}, opts,
@@ -321,6 +327,7 @@ func makeUint32s(opts ...func(*option[uint32])) Column {
 					data[offset] = r.SwapUint32(opts.Merge(data[offset], r.Uint32()))
 				case commit.Delete:
 					fill.Remove(offset)
+					data[offset] = 0 // The next row at this offset must not merge into this value
 				}
 			}
 		}, opts,
@@ -370,6 +377,7 @@ func makeUint64s(opts ...func(*option[uint64])) Column {
 					data[offset] = r.SwapUint64(opts.Merge(data[offset], r.Uint64()))
 				case commit.Delete:
 					fill.Remove(offset)
+					data[offset] = 0 // The next row at this offset must not merge into this value
 				}
 			}
 		}, opts,
@@ -419,6 +427,7 @@ func makeFloat32s(opts ...func(*option[float32])) Column {
 					data[offset] = r.SwapFloat32(opts.Merge(data[offset], r.Float32()))
 				case commit.Delete:
 					fill.Remove(offset)
+					data[offset] = 0 // The next row at this offset must not merge into this value
 				}
 			}
 		}, opts,
@@ -468,6 +477,7 @@ func makeFloat64s(opts ...func(*option[float64])) Column {
 					data[offset] = r.SwapFloat64(opts.Merge(data[offset], r.Float64()))
 				case commit.Delete:
 					fill.Remove(offset)
+					data[offset] = 0 // The next row at this offset must not merge into this value
 				}
 			}
 		}, opts,
